@@ -1023,7 +1023,7 @@ def clear_config(clear_constants=False):
     saved_constants = _CONSTANTS.copy()
     _CONSTANTS.clear()  # Clear then redefine constants (re-adding bindings).
     for name, value in saved_constants.items():
-      constant(name, value)
+      _CONSTANTS[name] = value
   _IMPORTS.clear()
   with _OPERATIVE_CONFIG_LOCK:
     _OPERATIVE_CONFIG.clear()
